@@ -136,6 +136,9 @@ enum TransientSourceState<T> {
     Register(T),
     /// The source needs to be disabled but kept.
     Disable(T),
+    /// The source has been disabled (it is no longer registered) and is kept
+    /// until the next `register()`.
+    Disabled(T),
     /// The source needs to be removed from the loop.
     Remove(T),
     /// The source is being replaced by another. For most API purposes (eg.
@@ -180,6 +183,7 @@ impl<T> TransientSourceState<T> {
             | Self::Register(source)
             | Self::Remove(source)
             | Self::Disable(source)
+            | Self::Disabled(source)
             | Self::Replace { new: source, .. } => replacer(source),
             Self::None => return,
         };
@@ -197,6 +201,7 @@ impl<T> TransientSource<T> {
             TransientSourceState::Keep(source)
             | TransientSourceState::Register(source)
             | TransientSourceState::Disable(source)
+            | TransientSourceState::Disabled(source)
             | TransientSourceState::Replace { new: source, .. } => Some(f(source)),
             TransientSourceState::Remove(_) | TransientSourceState::None => None,
         }
@@ -215,7 +220,16 @@ impl<T> TransientSource<T> {
     /// your own event source's `process_events()`, and the source will be
     /// unregistered as needed after it exits.
     pub fn remove(&mut self) {
-        self.state.replace_state(TransientSourceState::Remove);
+        self.state = match std::mem::take(&mut self.state) {
+            // Not registered, nothing is left to do but dropping it.
+            TransientSourceState::Disabled(_) | TransientSourceState::Register(_) => {
+                TransientSourceState::None
+            }
+            mut state => {
+                state.replace_state(TransientSourceState::Remove);
+                state
+            }
+        };
     }
 
     /// Replace the currently wrapped source with the given one.  No more events
@@ -229,8 +243,16 @@ impl<T> TransientSource<T> {
     /// your own event source's `process_events()`, and the sources will be
     /// registered and unregistered as needed after it exits.
     pub fn replace(&mut self, new: T) {
-        self.state
-            .replace_state(|old| TransientSourceState::Replace { new, old });
+        self.state = match std::mem::take(&mut self.state) {
+            // The old source is not registered, it can be dropped now.
+            TransientSourceState::Disabled(_) | TransientSourceState::Register(_) => {
+                TransientSourceState::Register(new)
+            }
+            mut state => {
+                state.replace_state(|old| TransientSourceState::Replace { new, old });
+                state
+            }
+        };
     }
 }
 
@@ -304,6 +326,7 @@ impl<T: crate::EventSource> crate::EventSource for TransientSource<T> {
             }
             TransientSourceState::Register(source)
             | TransientSourceState::Disable(source)
+            | TransientSourceState::Disabled(source)
             | TransientSourceState::Replace { new: source, .. } => {
                 source.register(poll, token_factory)?;
                 self.state.replace_state(TransientSourceState::Keep);
@@ -330,7 +353,9 @@ impl<T: crate::EventSource> crate::EventSource for TransientSource<T> {
             }
             TransientSourceState::Disable(source) => {
                 source.unregister(poll)?;
+                self.state.replace_state(TransientSourceState::Disabled);
             }
+            TransientSourceState::Disabled(_) => (),
             TransientSourceState::Remove(source) => {
                 source.unregister(poll)?;
                 self.state.replace_state(|_| TransientSourceState::None);
@@ -360,7 +385,7 @@ impl<T: crate::EventSource> crate::EventSource for TransientSource<T> {
                 new.unregister(poll)?;
                 self.state.replace_state(TransientSourceState::Register);
             }
-            TransientSourceState::None => (),
+            TransientSourceState::Disabled(_) | TransientSourceState::None => (),
         }
         Ok(())
     }
